@@ -177,7 +177,10 @@ def b5(ctx):
         ok_n = len(cases) == 2
         yield Ob(key_of("C14-B5", b.path, "two-arms"), ok_n, "two zeroing cases found (%d write(s), %d case(s))" % (len(ws), len(cases)), b.loc())
         ls = len_stores(res)
-        yield Ob(key_of("C14-B5", b.path, "len"), len(ls) == 1 and ls[0]["value"] == n, "len := n", b.loc())
+        # len := n on every path that zeroes (one store before the branch, or one per arm)
+        ok_len = bool(ls) and all(s_["value"] == n for s_ in ls) and all(
+            any(s_["bb"] == w["bb"] or b.dominates(s_["bb"], w["bb"]) or b.dominates(w["bb"], s_["bb"]) for s_ in ls if not s_["chain"]) for w in ws if not w["chain"])
+        yield Ob(key_of("C14-B5", b.path, "len"), ok_len, "len := n (%d store(s))" % len(ls), b.loc())
         kinds = []
         for e, dst_, cnt, fs in cases:
             order = Order(fs)
